@@ -226,7 +226,7 @@ Definition dec_of (t : list (bytes * dres)) (missing : dres) (kind : Z) (p : byt
   else match lookup p t with Some d => d | None => missing end.
 
 (* ---------------- cases ----------------
-   cfg [limit; isServer; dcKind; compKind; enc]
+   cfg [limit; isServer; dcKind; compKind; enc] or [...; path] (path 1 = end to end, see parse_path)
    op [1; len; bytes...]   a chunk (DATA frame) is appended to the stream     obs []
    op [2]                  recvAndDecompress       obs [kind; code; len; cksum; pulled; pos]
       kind 0 message, 1 io.EOF, 2 io.ErrUnexpectedEOF (code = toRPCErr's 13), 3 status
@@ -255,7 +255,23 @@ Definition parse_cfg (w : word) : option config :=
   | [l; s; d; k; e] =>
     if (0 <=? l) && (l <=? max_i64) && (0 <=? d) && (0 <=? k) && (0 <=? e)
     then Some (mkCfg l (z2b s) d k e) else None
+  | [l; s; d; k; e; p] =>
+    (* p = 1: end-to-end path (real client transport): client side, no legacy Decompressor *)
+    if (0 <=? l) && (l <=? max_i64) && (0 <=? d) && (0 <=? k) && (0 <=? e) &&
+       ((p =? 0) || ((p =? 1) && (s =? 0) && (d =? 0)))
+    then Some (mkCfg l (z2b s) d k e) else None
   | _ => None
+  end.
+
+(* cfg[5] = 1: the chunks are DATA frames sent by a raw HTTP/2 peer to a real ClientConn
+   and [2] is ClientStream.RecvMsg.  All chunks of the case are on the wire before the
+   trailers (they count as already received, wherever their ops stand); the client stops at
+   its first non-message result; io.ErrUnexpectedEOF reaches the application as INTERNAL;
+   bytes pulled / stream position are not observable (reported as 0). *)
+Definition parse_path (w : word) : bool :=
+  match w with
+  | [_; _; _; _; _; p] => p =? 1
+  | _ => false
   end.
 
 Inductive fop := OChunk (b : bytes) | ORecv | OOracle (p : bytes) (d : dres).
@@ -295,31 +311,63 @@ Fixpoint table_of (ops : list fop) : list (bytes * dres) :=
 Definition recv_obs (c : config) (x : res * Z) (pos : Z) : word :=
   res_obs (fst x) ++ [pulled_obs c (fst x) (snd x); pos].
 
-(* the model: chunks are appended to the reader's queue *)
-Fixpoint run_ops (dec : Z -> bytes -> dres) (c : config) (r : reader) (ops : list fop) : list word :=
+Definition is_msg (r : res) : bool := match r with RMsg _ => true | _ => false end.
+
+Definition res_obs_e (e2e : bool) (r : res) : word :=
+  match r with
+  | RUnexp => if e2e then [3; cInternal; 0; 0] else res_obs r
+  | _ => res_obs r
+  end.
+
+Definition recv_obs_e (e2e : bool) (c : config) (x : res * Z) (pos : Z) : word :=
+  if e2e then res_obs_e true (fst x) ++ [0; 0] else recv_obs c x pos.
+
+(* the model: chunks are appended to the reader's queue (in-memory path) or are all there
+   from the start (end-to-end path, where the receiver also stops at its first error) *)
+Fixpoint run_ops (e2e stopped : bool) (dec : Z -> bytes -> dres) (c : config) (r : reader)
+         (ops : list fop) : list word :=
   match ops with
   | [] => []
-  | OChunk b :: k => [] :: run_ops dec c (mkR (r_chunks r ++ [b]) (r_er r) (r_pos r)) k
-  | OOracle _ _ :: k => [] :: run_ops dec c r k
+  | OChunk b :: k =>
+    [] :: run_ops e2e stopped dec c
+            (if e2e then r else mkR (r_chunks r ++ [b]) (r_er r) (r_pos r)) k
+  | OOracle _ _ :: k => [] :: run_ops e2e stopped dec c r k
   | ORecv :: k =>
-    let '(x, r') := recvAndDecompress dec c r in
-    recv_obs c x (r_pos r') :: run_ops dec c r' k
+    if e2e && stopped then [] :: run_ops e2e stopped dec c r k
+    else
+      let '(x, r') := recvAndDecompress dec c r in
+      recv_obs_e e2e c x (r_pos r') :: run_ops e2e (negb (is_msg (fst x))) dec c r' k
   end.
 
 (* the specification: the same over the flat byte stream *)
-Fixpoint spec_ops (dec : Z -> bytes -> dres) (c : config) (s : fstate) (ops : list fop)
-  : list (option (res * Z * Z)) :=
+Fixpoint spec_ops (e2e stopped : bool) (dec : Z -> bytes -> dres) (c : config) (s : fstate)
+         (ops : list fop) : list (option (res * Z * Z)) :=
   match ops with
   | [] => []
-  | OChunk b :: k => None :: spec_ops dec c (mkF (f_buf s ++ b) (f_er s) (f_pos s)) k
-  | OOracle _ _ :: k => None :: spec_ops dec c s k
+  | OChunk b :: k =>
+    None :: spec_ops e2e stopped dec c
+              (if e2e then s else mkF (f_buf s ++ b) (f_er s) (f_pos s)) k
+  | OOracle _ _ :: k => None :: spec_ops e2e stopped dec c s k
   | ORecv :: k =>
-    let '(x, s') := spec_recv dec c s in
-    Some (x, f_pos s') :: spec_ops dec c s' k
+    if e2e && stopped then None :: spec_ops e2e stopped dec c s k
+    else
+      let '(x, s') := spec_recv dec c s in
+      Some (x, f_pos s') :: spec_ops e2e (negb (is_msg (fst x))) dec c s' k
+  end.
+
+Fixpoint chunks_of (ops : list fop) : list bytes :=
+  match ops with
+  | [] => []
+  | OChunk b :: k => b :: chunks_of k
+  | _ :: k => chunks_of k
   end.
 
 Definition r0 : reader := mkR [] false 0.
 Definition s0 : fstate := mkF [] false 0.
+Definition r_init (e2e : bool) (os : list fop) : reader :=
+  if e2e then mkR (chunks_of os) false 0 else r0.
+Definition s_init (e2e : bool) (os : list fop) : fstate :=
+  if e2e then mkF (concat (chunks_of os)) false 0 else s0.
 
 (* an oracle entry that is needed but absent (a shrunk op list) makes the two default
    answers differ: such a case is not evaluated (BadCase) *)
@@ -327,8 +375,9 @@ Definition run (cfg : word) (ops : list word) : option (list word) :=
   match parse_cfg cfg, parse_ops ops with
   | Some c, Some os =>
     let t := table_of os in
-    let o1 := run_ops (dec_of t DHdrErr) c r0 os in
-    let o2 := run_ops (dec_of t (DStream [] true)) c r0 os in
+    let e := parse_path cfg in
+    let o1 := run_ops e false (dec_of t DHdrErr) c (r_init e os) os in
+    let o2 := run_ops e false (dec_of t (DStream [] true)) c (r_init e os) os in
     if words_eqb o1 o2 then Some o1 else None
   | _, _ => None
   end.
@@ -359,28 +408,31 @@ Definition mat_clause (c : config) (i pulled : Z) : list (Z * Z * bool) :=
     else if 2 <=? dcKind c then [(5, i, pulled <=? limit c + 1)] else []
   else [].
 
-Fixpoint clauses_from (c : config) (i : Z) (sp : list (option (res * Z * Z))) (obs : list word)
-  : list (Z * Z * bool) :=
+Fixpoint clauses_from (e2e : bool) (c : config) (i : Z) (sp : list (option (res * Z * Z)))
+         (obs : list word) : list (Z * Z * bool) :=
   match sp, obs with
   | [], [] => []
-  | None :: sp', o :: obs' => (0, i, word_eqb o []) :: clauses_from c (i + 1) sp' obs'
+  | None :: sp', o :: obs' => (0, i, word_eqb o []) :: clauses_from e2e c (i + 1) sp' obs'
   | Some (r, _, _) :: sp', o :: obs' =>
     match o with
     | [k; code; len; ck; pulled; pos] =>
-      (clause_id r, i, word_eqb [k; code; len; ck] (res_obs r)) :: mat_clause c i pulled
+      (clause_id r, i, word_eqb [k; code; len; ck] (res_obs_e e2e r)) :: mat_clause c i pulled
     | _ => [(0, i, false)]
-    end ++ clauses_from c (i + 1) sp' obs'
+    end ++ clauses_from e2e c (i + 1) sp' obs'
   | _, _ => [(0, i, false)]
   end.
 
-Definition oracle_ok (c : config) (os : list fop) : bool :=
+Definition oracle_ok (e : bool) (c : config) (os : list fop) : bool :=
   let t := table_of os in
-  words_eqb (run_ops (dec_of t DHdrErr) c r0 os) (run_ops (dec_of t (DStream [] true)) c r0 os).
+  words_eqb (run_ops e false (dec_of t DHdrErr) c (r_init e os) os)
+            (run_ops e false (dec_of t (DStream [] true)) c (r_init e os) os).
 
 Definition clauses (cfg : word) (ops obs : list word) : list (Z * Z * bool) :=
   match parse_cfg cfg, parse_ops ops with
   | Some c, Some os =>
-    if oracle_ok c os then clauses_from c 0 (spec_ops (dec_of (table_of os) DHdrErr) c s0 os) obs
+    let e := parse_path cfg in
+    if oracle_ok e c os
+    then clauses_from e c 0 (spec_ops e false (dec_of (table_of os) DHdrErr) c (s_init e os) os) obs
     else []
   | _, _ => []
   end.
@@ -388,7 +440,7 @@ Definition clauses (cfg : word) (ops obs : list word) : list (Z * Z * bool) :=
 (* well-formed case: decodes, and every gzip payload that is decompressed has its oracle *)
 Definition wf (cfg : word) (ops : list word) : bool :=
   match parse_cfg cfg, parse_ops ops with
-  | Some c, Some os => oracle_ok c os
+  | Some c, Some os => oracle_ok (parse_path cfg) c os
   | _, _ => false
   end.
 
